@@ -304,6 +304,67 @@ def param_default(func, name):
     return None
 
 
+def flow_texts(func):
+    """Statement texts of a function after forward substitution of single-use temporaries (`t = E; use(t)` in the next statement of the same block
+    -> `use(E)`): rules that describe a small function by what it computes match `n = self.read_int(); return self.read(n)` and
+    `return self.read(self.read_int())` alike.  Works on a copy; the analysed tree is not modified."""
+    import copy as _copy
+
+    def clone(n):
+        if isinstance(n, list):
+            return [clone(x) for x in n]
+        if not isinstance(n, ast.AST):
+            return n
+        new = type(n)()
+        for f in n._fields:
+            if hasattr(n, f):
+                setattr(new, f, clone(getattr(n, f)))
+        return new
+    body = clone(func.body)
+    loads, stores = {}, {}
+    for st in body:
+        for x in ast.walk(st):
+            if isinstance(x, ast.Name):
+                d = loads if isinstance(x.ctx, ast.Load) else stores
+                d[x.id] = d.get(x.id, 0) + 1
+
+    def block(stmts):
+        out = []
+        i = 0
+        stmts = list(stmts)
+        while i < len(stmts):
+            st = stmts[i]
+            if isinstance(st, (ast.Assign, ast.AnnAssign)) and i + 1 < len(stmts):
+                tg = st.targets[0] if isinstance(st, ast.Assign) and len(st.targets) == 1 else (st.target if isinstance(st, ast.AnnAssign) else None)
+                if isinstance(tg, ast.Name) and st.value is not None and loads.get(tg.id, 0) == 1 and stores.get(tg.id, 0) == 1:
+                    nxt = stmts[i + 1]
+                    hdr = nxt.test if isinstance(nxt, (ast.If, ast.While)) else (nxt.iter if isinstance(nxt, ast.For) else nxt)
+                    uses = [x for x in ast.walk(hdr) if isinstance(x, ast.Name) and x.id == tg.id and isinstance(x.ctx, ast.Load)] if not isinstance(nxt, (ast.Try, ast.With, ast.FunctionDef)) else []
+                    if len(uses) == 1:
+                        class R(ast.NodeTransformer):
+                            def visit_Name(self, node):
+                                return st.value if node is uses[0] else node
+                        if isinstance(nxt, (ast.If, ast.While)):
+                            nxt.test = R().visit(nxt.test)
+                        elif isinstance(nxt, ast.For):
+                            nxt.iter = R().visit(nxt.iter)
+                        else:
+                            stmts[i + 1] = R().visit(nxt)
+                        i += 1
+                        continue
+            for fld in ('body', 'orelse', 'finalbody'):
+                b = getattr(st, fld, None)
+                if isinstance(b, list) and b and isinstance(b[0], ast.stmt) and not isinstance(st, (ast.FunctionDef, ast.ClassDef)):
+                    setattr(st, fld, block(b))
+            out.append(st)
+            i += 1
+        return out
+    res = block(body)
+    for st in res:
+        ast.fix_missing_locations(st)
+    return [ast.unparse(st) for st in res if not (isinstance(st, ast.Expr) and isinstance(st.value, ast.Constant))]
+
+
 def loc(node):
     m = getattr(node, '_module', None)
     return '%s:%s' % (m.relpath if m else '?', getattr(node, 'lineno', '?'))
